@@ -23,6 +23,8 @@
 // Stream 4 (bigint.go): leading-zero handling of big integers: the real helpers
 // (BigIntBytesToFixedSizeBuffer, Pad, AdjustEncodingLengths, removeLeadingZeros, the ECDSA point
 // helpers) and the big-integer fields of real EC / RSA keys vs the Lean model (`N` lines).
+// Stream 6 (rsaodd.go): RSA keys of all four families whose modulus bit length is not a multiple of 8
+// (2049, 2050, …) or whose primes have different byte lengths, through all of the above.
 package main
 
 import (
@@ -84,6 +86,8 @@ func main() {
 	lap("stream 4: big-integer helpers")
 	w.largeKeysetStream(hlib.NewRng(seed, "c12/large"))
 	lap("stream 5: large keysets")
+	w.rsaOddStream(hlib.NewRng(seed, "c12/rsa-odd"))
+	lap("stream 6: RSA off-grid sizes")
 
 	for t, n := range keygenRefused {
 		o.Hist["keygen-refuses-valid-parameters(built-with-NewKey)/"+t] = n
